@@ -211,19 +211,39 @@ class Seq:
 
 
 class SymMap:
-    """dict with symbolic keys; lambda represented."""
+    """dict with symbolic keys; lambda represented (base functions + a list of later stores)."""
 
     def __init__(self, has=None, get=None):
-        self.has = has or (lambda k: z3.BoolVal(False))
-        self.get = get or (lambda k: None)
+        self._has0 = has or (lambda k: z3.BoolVal(False))
+        self._get0 = get
+        self.entries = []
+
+    def has(self, k):
+        r = self._has0(k)
+        for key, _ in self.entries:
+            r = z3.Or(keq(k, key), r)
+        return r
+
+    def get(self, k):
+        """value stored under k (meaningful where has(k) holds)"""
+        res = self._get0(k) if self._get0 is not None else None
+        for key, val in self.entries:
+            res = val if res is None else ite(keq(k, key), val, res)
+        return res
 
     def set(self, key, val):
-        has0, get0 = self.has, self.get
-        self.has = lambda k: z3.Or(keq(k, key), has0(k))
-        self.get = lambda k: ite(keq(k, key), val, get0(k))
+        self.entries.append((key, val))
 
     def copy(self):
-        return SymMap(self.has, self.get)
+        m = SymMap(self._has0, self._get0)
+        m.entries = list(self.entries)
+        return m
+
+
+class SDict(dict):
+    """dict created by interpreted code: concrete keys live in the dict itself, entries stored
+    under a symbolic key in `sym` (a SymMap)."""
+    sym = None
 
 
 def keq(a, b):
